@@ -211,14 +211,14 @@ def unit(cfg):
         if not vt:
             continue
         # 4 weights non-negative, sum to one
-        u.prove("weights-nonnegative", z3.And(*[x >= 0 for x in wt]), H, cex("nonneg"))
-        u.prove("weights-sum-to-one", z3.Sum(wt) == 1, H, cex("sum"))
+        u.prove("weights-nonnegative", z3.And(*[x >= 0 for x in wt]), H, cex("nonneg"), abstract=True)
+        u.prove("weights-sum-to-one", z3.Sum(wt) == 1, H, cex("sum"), abstract=True)
         # 5 proportional to the documented density (pairwise, against point 0)
         if len(vt) > 1:
             # normalised weights are the un-normalised ones over a common factor
             u.prove("normalisation-is-common-factor",
                     z3.And(*[wt[i] * pxt[0] == wt[0] * pxt[i] for i in range(1, len(vt))]),
-                    H, cex("common-factor"))
+                    H, cex("common-factor"), abstract=True)
             ref = [_ref_logdensity(dist, x, centre, sigma) for x in vt]
             if ref[0] is None:
                 u.prove("density-flat", z3.And(*[pxt[i] == pxt[0] for i in range(1, len(vt))]),
